@@ -12,19 +12,10 @@ from sa.rules.common import calls_named, compose_operands, rtext
 from sa.selftest import Edit, Variant
 from sa.sym import ClassRef, Cond, Ext, Interp, PyCallable, Rec, SymStr, Undecided, Unknown, closure_of, explore, method_of, to_rf
 
-EXPLANATION = (
-    "Colour at a point is a runtime quantity (not decided). Decided necessary conditions: (parsing, by interpreting both from_element "
-    "classmethods symbolically for every subset of attributes absent/present and both gradientUnits) specification defaults x1 0% y1 0% x2 100% "
-    "y2 0% / cx cy r 50% fr 0% fx->cx fy->cy, x-like values scaled by the reference width, y-like by its height, radii by the normalised "
-    "diagonal, reference box = unit square or viewBox, unknown attributes rejected, dataclass defaults objectBoundingBox/pad; (unit conversion, "
-    "interpreted for every class in the gradient hierarchy that defines as_user_space_units) the new gradientTransform maps through the old "
-    "one first and then unit-square->bbox, coordinates untouched, units switched exactly on that branch; (CTM) _transformed_gradient composes "
-    "gradient space first, then the shape CTM, with the bbox of the untransformed shape, allocates a fresh id, and is called unconditionally "
-    "whenever a transformed shape has a url fill; (translation folding) point-valued coordinate pairs only, decomposition recomposes (C11 "
-    "R-POLY), one rounding constant >= 6; (templates) own attribute wins, stops copied only when absent, template chain resolved first, href "
-    "removed, copied stops lose ids."
-)
-ASSUMPTIONS = ["with bounding-box units the shape geometry is not altered by clipping or stroking (scope of the property)"]
+from sa.texts import T as _T
+
+EXPLANATION = _T["C06"]["explanation"] + " Not decided: " + _T["C06"]["not_decided"] + "."
+ASSUMPTIONS = _T["C06"]["assumptions"]
 P = "C06"
 S = RF.sym
 
